@@ -179,6 +179,8 @@ def hook_configs(maxn=2):
 
 
 def gen_cases(tier, seed):
+    from bounded.cases import _c03_extra
+    yield from _c03_extra.gen(tier)
     hooks = hook_configs()
     seen_unused = set()
     for s in STATUSES:
@@ -259,6 +261,8 @@ def random_case(rnd, k):
 
 
 def nontrivial(case):
+    if 'extra' in case:
+        return True
     p = case['prog']
     plain = (p['node']['t'] == 'val' and p['node']['v'] and p['action'] == 'return' and p['route'] == 'normal'
              and p['pre_status'] in (None, 200) and not p['errh'])
@@ -463,6 +467,9 @@ def build(node, W, ombott):
 
 
 def run_case(case):
+    if 'extra' in case:
+        from bounded.cases import _c03_extra
+        return _c03_extra.run(case)
     import ombott
     prog, hk, method = case['prog'], case['hooks'], case['method']
     W = World()
